@@ -12,9 +12,10 @@ SECTIONS_SRC = '''<%def name="d(x)" cached="True" cache_timeout="30">[d:${x}:${v
 <%def name="outer()"><%def name="inner()" cached="True">[inner:${v}${tick('inner')}]</%def>${inner()}</%def>
 <%def name="k(x)" cached="True" cache_key="${x}">[k:${x}:${v}${tick('k')}]</%def>
 <%def name="bf(x)" cached="True" buffered="True" filter="trim">  [bf:${v}${tick('bf')}]  </%def>
+<%def name="outer2()"><%def name="nb()" cached="True" buffered="True">[nb:${v}${tick('nb')}]</%def><% held = nb() %>(${held})</%def>
 <%block name="blk" cached="True">[blk:${v}${tick('blk')}]</%block>
 <%block cached="True">[anon:${v}${tick('anon')}]</%block>
-${d(1)}${d(2)}${outer()}${k('p')}${k('q')}${bf(1)}'''
+${d(1)}${d(2)}${outer()}${k('p')}${k('q')}${bf(1)}${outer2()}'''
 PAGE_SRC = '''<%page cached="True"/>[page:${v}${tick('page')}]'''
 
 
@@ -41,6 +42,8 @@ class Model:
             s("inner", lambda: "[inner:%s]" % v, counts, "inner"),
             s("k:p", lambda: "[k:p:%s]" % v, counts, "k"), s("k:q", lambda: "[k:q:%s]" % v, counts, "k"),
             s("bf", lambda: "[bf:%s]" % v, counts, "bf"),
+            # a cached *and buffered* def nested in another def: its value is returned to the caller, here held and written in brackets
+            "(" + s("nb", lambda: "[nb:%s]" % v, counts, "nb") + ")",
         ]
         blk = s("blk", lambda: "[blk:%s]" % v, counts, "blk")
         anon = s("anon", lambda: "[anon:%s]" % v, counts, "anon")
